@@ -47,6 +47,9 @@ macro_rules! catch {
         std::panic::catch_unwind(std::panic::AssertUnwindSafe($f)).map_err(|e| {
             let message = if let Some(msg) = e.downcast_ref::<&'static str>() {
                 *msg
+            } else if let Some(msg) = e.downcast_ref::<String>() {
+                // `panic!("{x}")` carries a `String`, keep its message
+                &*msg.clone().leak()
             } else {
                 $msg.leak()
             };
